@@ -11,7 +11,13 @@ pub fn expand(input: &DeriveInput, trait_name: &'static str) -> Result<TokenStre
         input,
         trait_name,
         trait_name.to_lowercase(),
-        AttrParams::struct_(vec!["forward"]),
+        // `#[mul(forward)]` is the documented way to derive for enums too.
+        AttrParams {
+            enum_: vec!["forward"],
+            struct_: vec!["forward"],
+            variant: vec![],
+            field: vec![],
+        },
     )?;
     if state.default_info.forward {
         return Ok(add_like::expand(input, trait_name));
